@@ -90,6 +90,10 @@ type World struct {
 	Proposals []*Proposal
 
 	Ext interface{} // F-world extension
+
+	// Agenda holds follow-up actions a generator scheduled (macros such as "run the handshake"); generators pop
+	// from it before drawing anything new. It is derived from drawn values only, so traces stay reproducible.
+	Agenda []Action
 }
 
 func New(cfg Config) *World {
